@@ -100,15 +100,15 @@ def run_shape(shape):
     Rb, vol, adj, bor, dis = position_spec(n_o, n_t, area, arc, ang, r, zero=z3.RealVal(0))
     n = n_o * n_t
     for path in eng.explore(body):
-        acc.paths += 1
+        acc.begin(prover, path)
         if path.kind == "exc":
             acc.structural("no_exception", False, detail=repr(path.value) + (path.tb or "")[-600:],
                            cex={"kind": "exception", "exc": type(path.value).__name__})
             continue
         A, B, D, V, A2, ln = path.value
         prem = path.premises
-        if acc.reachable is None:
-            acc.reachable = prover.satisfiable(prem) == "sat"
+        if acc.reachable is not True:
+            acc.reach(prover.satisfiable(prem))
         acc.structural("len", ln == n, detail=ln)
         acc.structural("shapes", A.shape == B.shape == D.shape == (n, n) and len(V) == n, detail=(A.shape, B.shape, D.shape, len(V)))
         same = all(getattr(M, "format", None) == "coo" for M in (A, B, D)) and \
